@@ -189,7 +189,11 @@ func Classify(cs Case) (bool, interface{}, []string) {
 		classes = append(classes, "by-pointer")
 	}
 	textKey := text
-	if m&7 == 0 && (it.K == "if" || it.K == "psx") {
+	inner := it
+	for inner.In != nil {
+		inner = *inner.In
+	}
+	if (inner.K == "if" && inner.M&7 == 0) || inner.K == "psx" {
 		textKey = "" // %v of a pointer: the address is not part of the case's identity
 	}
 	key := fmt.Sprintf("%s|%d|%v|%d|%x|%v", it.K, m, it.P, depth(it), ev.Hash64(textKey), mutated)
